@@ -74,7 +74,44 @@ func genSegDesc(t *rapid.T, allowForeign bool) ref.SpliceDesc {
 			}
 		}
 	}
+	normUPIDs(&d)
 	return d
+}
+
+// upidFixedLen: the segmentation_upid_length SCTE 35 (table 22) prescribes for the types of fixed size. A well-formed
+// section uses exactly these (a decoder may check them); the types of variable size carry every length.
+var upidFixedLen = map[byte]int{0x00: 0, 0x02: 8, 0x03: 12, 0x04: 32, 0x05: 8, 0x06: 12, 0x07: 12, 0x08: 8, 0x0A: 12}
+
+func fixUPIDLen(ty byte, body ref.Hex) (byte, ref.Hex) {
+	n, fixed := upidFixedLen[ty]
+	if !fixed || len(body) == n {
+		return ty, body
+	}
+	if len(body) > 40 {
+		return 0x0F, body // the long identifiers stay long, as a URI
+	}
+	out := make(ref.Hex, n)
+	for i := range out {
+		if len(body) > 0 {
+			out[i] = body[i%len(body)]
+		} else {
+			out[i] = byte(0x30 + i)
+		}
+	}
+	return ty, out
+}
+
+func normUPIDs(d *ref.SpliceDesc) {
+	if d.Foreign {
+		return
+	}
+	if d.UPIDType == 0x0D {
+		for i := range d.MID {
+			d.MID[i].Type, d.MID[i].Body = fixUPIDLen(d.MID[i].Type, d.MID[i].Body)
+		}
+		return
+	}
+	d.UPIDType, d.UPID = fixUPIDLen(d.UPIDType, d.UPID)
 }
 
 // genSplice draws a well-formed splice_info_section over the supported syntax.
@@ -164,6 +201,7 @@ func genSplice(t *rapid.T, allowForeign bool) ref.Splice {
 				d.UPID = d.UPID[:len(d.UPID)-over]
 			}
 		}
+		normUPIDs(&d)
 		s.Descs = append(s.Descs, d)
 	}
 	return s
